@@ -37,6 +37,9 @@ theorem seq_step_inv {α} (kind : SeqKind) (items : Nat → Item) (st : St SeqSt
         | raise er =>
           left
           cases kind <;> simp [Plumb.acts, Plumb.act, hd, Notif.isTerminal, hl]
+        | fail er =>
+          left
+          cases kind <;> simp [Plumb.acts, Plumb.act, hd, Notif.isTerminal, hl]
       · left; simp [hp, hd, Plumb.acts, h.wf hd]
     · have hp' : st.s.pending = false := by simpa using hp
       simpa [hp', Plumb.acts] using h.one
@@ -270,6 +273,7 @@ theorem concat_completed_step {α} (items : Nat → Item) (st : St SeqSt) (e : E
         | stop => rfl
         | src => simp [hp, hd, hi, actEmits, cut] at hc
         | raise er => simp [hp, hd, hi, actEmits, cut, Notif.isTerminal] at hc
+        | fail er => simp [hp, hd, hi, actEmits, cut, Notif.isTerminal] at hc
       · have hp' : st.s.pending = false := by simpa using hp
         simp [hp', actEmits, cut] at hc
     · rw [emits_acts_done _ _ hd] at hc; simp at hc
@@ -380,6 +384,9 @@ theorem seq_inline_step_inv {α} (kind : SeqKind) (items : Nat → Item) (st : S
             | raise ex =>
               left
               simp [step, hk, seqInlineM, seqInlineHandler, seqHandler, seqTick, hi, Plumb.acts, Plumb.act, hnd, Notif.isTerminal, h1]
+            | fail ex =>
+              left
+              simp [step, hk, seqInlineM, seqInlineHandler, seqHandler, seqTick, hi, Plumb.acts, Plumb.act, hnd, Notif.isTerminal, h1]
           | oern =>
             cases hi : items st.s.idx with
             | src =>
@@ -390,6 +397,9 @@ theorem seq_inline_step_inv {α} (kind : SeqKind) (items : Nat → Item) (st : S
               cases hl : st.s.lastErr <;>
                 simp [step, hk, seqInlineM, seqInlineHandler, seqHandler, seqTick, hi, hl, Plumb.acts, Plumb.act, hnd, Notif.isTerminal, h1]
             | raise ex =>
+              left
+              simp [step, hk, seqInlineM, seqInlineHandler, seqHandler, seqTick, hi, Plumb.acts, Plumb.act, hnd, Notif.isTerminal, h1]
+            | fail ex =>
               left
               simp [step, hk, seqInlineM, seqInlineHandler, seqHandler, seqTick, hi, Plumb.acts, Plumb.act, hnd, Notif.isTerminal, h1]
         | completed =>
@@ -409,6 +419,9 @@ theorem seq_inline_step_inv {α} (kind : SeqKind) (items : Nat → Item) (st : S
             | raise ex =>
               left
               simp [step, hk, seqInlineM, seqInlineHandler, seqHandler, seqTick, hi, Plumb.acts, Plumb.act, hnd, Notif.isTerminal, h1]
+            | fail ex =>
+              left
+              simp [step, hk, seqInlineM, seqInlineHandler, seqHandler, seqTick, hi, Plumb.acts, Plumb.act, hnd, Notif.isTerminal, h1]
           | oern =>
             cases hi : items st.s.idx with
             | src =>
@@ -419,6 +432,9 @@ theorem seq_inline_step_inv {α} (kind : SeqKind) (items : Nat → Item) (st : S
               cases hl : st.s.lastErr <;>
                 simp [step, hk, seqInlineM, seqInlineHandler, seqHandler, seqTick, hi, hl, Plumb.acts, Plumb.act, hnd, Notif.isTerminal, h1]
             | raise ex =>
+              left
+              simp [step, hk, seqInlineM, seqInlineHandler, seqHandler, seqTick, hi, Plumb.acts, Plumb.act, hnd, Notif.isTerminal, h1]
+            | fail ex =>
               left
               simp [step, hk, seqInlineM, seqInlineHandler, seqHandler, seqTick, hi, Plumb.acts, Plumb.act, hnd, Notif.isTerminal, h1]
     · rw [step_src_not_live _ _ _ _ hk]; exact h.one
@@ -629,6 +645,7 @@ theorem concat_inline_completed_step {α} (items : Nat → Item) (st : St SeqSt)
         | stop => rfl
         | src => simp [seqInlineM, seqInlineHandler, seqHandler, seqTick, hi, actEmits, cut] at hc
         | raise ex => simp [seqInlineM, seqInlineHandler, seqHandler, seqTick, hi, actEmits, cut, Notif.isTerminal] at hc
+        | fail ex => simp [seqInlineM, seqInlineHandler, seqHandler, seqTick, hi, actEmits, cut, Notif.isTerminal] at hc
     · simp [step_src_not_live _ _ _ _ hk] at hc
 
 end Comb
